@@ -186,10 +186,15 @@ def caExts (H : Hashes) (p : CertParams) (subject : PubKey) : List Asn1 :=
 
 def customExtNode (e : CustomExtension) : Asn1 := extNode e.oid e.critical e.content
 
-/-- certificate.rs:691-697 -/
+/-- `self.name_constraints.iter().any(|c| !c.is_empty())` -/
+def ncRequested : Option NameConstraints → Bool
+  | some nc => !nc.isEmpty
+  | none => false
+
+/-- certificate.rs `should_write_exts` -/
 def shouldWriteExts (p : CertParams) : Bool :=
   p.useAki || !p.sans.isEmpty || !p.keyUsages.isEmpty || !p.ekus.isEmpty ||
-  (match p.nameConstraints with | some nc => !nc.isEmpty | none => false) ||
+  ncRequested p.nameConstraints ||
   !p.crlDps.isEmpty || p.isCa != .noCa || !p.customExts.isEmpty
 
 /-- certificate.rs:704-714 -/
@@ -289,12 +294,14 @@ def subtreePanics : GeneralSubtree → Bool
   | .directoryName dn => dnPanics dn
   | .ip _ => false
 
+def ncPanics : Option NameConstraints → Bool
+  | some nc => !nc.isEmpty && (nc.permitted.any subtreePanics || nc.excluded.any subtreePanics)
+  | none => false
+
 def extensionsPanic (p : CertParams) : Bool :=
   p.sans.any sanPanics ||
   p.ekus.any (fun e => !oidOk e.oid) ||
-  (match p.nameConstraints with
-   | some nc => !nc.isEmpty && (nc.permitted.any subtreePanics || nc.excluded.any subtreePanics)
-   | none => false) ||
+  ncPanics p.nameConstraints ||
   p.crlDps.any (fun dp => dp.uris.any (fun u => !isAscii u)) ||
   p.customExts.any (fun e => !oidOk e.oid)
 
